@@ -1,6 +1,7 @@
 //! vx — mechanical extractor: /repo source -> normalised Verus text with woven contracts.
 //! usage: vx <spec.vx> --repo <dir> --prelude <dir> --out <file.rs> --meta <file.json> [--canary]
 //! exit 0 ok; exit 2 lost anchor / unsupported construct / spec error (never a verdict).
+mod derive;
 mod norm;
 mod spec;
 
@@ -270,6 +271,12 @@ fn render_fn(ctx: &mut Ctx, unit: &Unit, fs: &FnSpec, found: &FoundFn, in_trait_
             FnArg::Typed(pt) => {
                 pt.attrs.clear();
                 n.visit_type_mut(&mut pt.ty);
+                if let Pat::Wild(_) = &*pt.pat {
+                    // R-WILDPARAM: Verus wants a plain identifier
+                    let id = Ident::new(&format!("_vx_arg{}", inputs.len()), Span::call_site());
+                    *pt.pat = parse_quote!(#id);
+                    n.bump("R-WILDPARAM");
+                }
                 let mut name = ts(&pt.pat);
                 if let Pat::Ident(pi) = &mut *pt.pat {
                     if pi.mutability.is_some() && pi.by_ref.is_none() {
@@ -496,6 +503,9 @@ fn main() {
         let t = std::fs::read_to_string(&path).unwrap_or_else(|e| fail(&format!("SPEC-ERROR prelude {}: {}", path, e)));
         o.push_str(&format!("// ======== prelude/{}.vx ========\n{}\n", p, t));
     }
+    // R-MACRO-EXPAND: one helper run for all @derive directives
+    let groups: Vec<(String, Vec<String>)> = unit.items.iter().filter_map(|it| if let SItem::Derive(d) = it { Some((d.file.clone(), d.names.clone())) } else { None }).collect();
+    let derived = if groups.is_empty() { Ok(vec![]) } else { derive::run_helper(&ctx.repo, &groups) };
     for item in &unit.items {
         match item {
             SItem::Raw(t) => { o.push_str(t); o.push('\n'); }
@@ -550,7 +560,58 @@ fn main() {
                     Err(e) => ctx.problems.push(e),
                 }
             }
-            SItem::Derive { .. } => { ctx.problems.push("UNSUPPORTED @derive handled by derive helper".into()); }
+            SItem::Derive(d) => {
+                // R-MACRO-EXPAND
+                if d.names.len() > 1 && (!d.extra.is_empty() || !d.f.at.is_empty()) { ctx.problems.push(format!("SPEC-ERROR @derive with several names takes no sub-directives ({})", d.names.join(" "))); }
+                match &derived {
+                    Err(e) => { if !ctx.problems.contains(e) { ctx.problems.push(e.clone()); } }
+                    Ok(list) => for ex in list.iter().filter(|x| x.file == d.file && d.names.contains(&x.name)) {
+                        // the type definition (attrs dropped, fields pub, R-TYPE)
+                        let dummy = FnSpec::default();
+                        let mut nt = Norm::new(&dummy, &unit, false, "");
+                        let mut item = ex.item.clone();
+                        match &mut item {
+                            Item::Struct(s) => { s.attrs.clear(); s.vis = parse_quote!(pub); for f in s.fields.iter_mut() { f.attrs.clear(); f.vis = parse_quote!(pub); nt.visit_type_mut(&mut f.ty); } }
+                            Item::Enum(e) => { e.attrs.clear(); e.vis = parse_quote!(pub); for v in e.variants.iter_mut() { v.attrs.clear(); for f in v.fields.iter_mut() { f.attrs.clear(); nt.visit_type_mut(&mut f.ty); } } }
+                            _ => {}
+                        }
+                        ctx.types_meta.push(json!({"name": ex.name, "file": d.file, "src_lines": [ex.lines.0, ex.lines.1], "rules": nt.log, "via": ex.via}));
+                        let tf: File = parse_quote!(#item);
+                        o.push_str(&format!("// ---- type {} from {}:{}-{} ({})\n{}\n{}\n", ex.name, d.file, ex.lines.0, ex.lines.1, ex.via, d.tattrs, prettyplease::unparse(&tf)));
+                        // the macro's impl: header + `hash`
+                        let mut imp = ex.imp.clone();
+                        imp.attrs.clear();
+                        let mut hn = Norm::new(&dummy, &unit, false, "");
+                        hn.visit_generics_mut(&mut imp.generics);
+                        if let Some((_, p, _)) = &mut imp.trait_ { hn.visit_path_mut(p); }
+                        hn.visit_type_mut(&mut imp.self_ty);
+                        let is_ch = imp.trait_.as_ref().map(|t| ts(&t.1) == "ContentHash").unwrap_or(false);
+                        let hashes: Vec<&ImplItemFn> = imp.items.iter().filter_map(|it| if let ImplItem::Fn(f) = it { Some(f) } else { None }).collect();
+                        if !is_ch || hashes.len() != 1 || hashes[0].sig.ident != "hash" || imp.items.len() != 1 {
+                            ctx.problems.push(format!("UNSUPPORTED derive {}: macro output is not `impl ContentHash for .. {{ fn hash }}`", ex.name));
+                            continue;
+                        }
+                        let hf = hashes[0];
+                        let found = FoundFn { attrs: vec![], sig: hf.sig.clone(), block: hf.block.clone(), impl_generics: Some(imp.generics.clone()), self_ty: Some((*imp.self_ty).clone()), trait_: imp.trait_.as_ref().map(|t| t.1.clone()), assoc_types: vec![], start: ex.lines.0, end: ex.lines.1 };
+                        let disp = format!("<derive ContentHash for {}>::hash", ex.name);
+                        let mut dfs = d.f.clone();
+                        if !dfs.at.iter().any(|(a, _)| a == "fn.end") { if let Some(t) = derive::gen_hash_end(&item) { dfs.at.push(("fn.end".into(), t)); } }
+                        let r = render_fn(&mut ctx, &unit, &dfs, &found, true, &disp);
+                        let extra = if d.extra.trim().is_empty() { match derive::gen_spec(&item) { Ok(t) => t, Err(e) => { ctx.problems.push(e); String::new() } } } else { d.extra.clone() };
+                        let wh = imp.generics.where_clause.as_ref().map(|w| format!(" {}", ts(w))).unwrap_or_default();
+                        let header = format!("impl{} ContentHash for {}{}", strip_generic_defaults(&imp.generics), ts(&imp.self_ty), wh);
+                        let base = o.lines().count() + 1;
+                        let pre = format!("{} {{\n{}// ---- fn {} = output of lib/proc-macros/src/content_hash.rs on {}:{}-{}\n", header, extra, disp, d.file, ex.lines.0, ex.lines.1);
+                        let s0 = base + pre.lines().count();
+                        o.push_str(&pre);
+                        o.push_str(&r.text);
+                        let e0 = o.lines().count();
+                        o.push_str("}\n\n");
+                        let mut m = r.meta; m["gen_lines"] = json!([s0, e0]); m["rules"]["R-MACRO-EXPAND"] = json!(1); m["macro_source"] = json!("lib/proc-macros/src/{lib,content_hash}.rs");
+                        ctx.fns_meta.push(m);
+                    }
+                }
+            }
             SItem::Fn(fs) => {
                 match locate(&mut ctx, &fs.file, &fs.path, None) {
                     Ok(found) => {
